@@ -181,7 +181,8 @@ func (c *commonStore) uncompressedReader(ctx context.Context, reader io.ReadClos
 		}
 
 		if c.uncompressedReadCallback != nil {
-			out = &callbackReadCloser{rc: zstdReader.IOReadCloser(), callback: c.uncompressedReadCallback, ctx: ctx}
+			// verif overlay: also close the underlying file on this path (metered stores: every snapshot load)
+			out = wrapReadCloser(&callbackReadCloser{rc: zstdReader.IOReadCloser(), callback: c.uncompressedReadCallback, ctx: ctx}, func() { reader.Close() })
 		} else {
 			// verif overlay: also close the underlying file (the original leaves it to the finalizer)
 			out = wrapReadCloser(zstdReader.IOReadCloser(), func() { reader.Close() })
